@@ -2,6 +2,7 @@
 from contracts import c_ddm as DD
 from contracts import py_gruneisen as PG
 
+from contracts import py_gruneisen2 as PG2
 
 def build(run):
     reg = {"get_derivative_dynmat_at_q": DD.block_contract(), "get_derivative_nac": DD.nac_contract()}
@@ -9,3 +10,4 @@ def build(run):
     DD.nac_scalar_lemmas(run)
     run.verify_c([DD.derivative_block_contract()])
     PG.band_order_pairing(run)
+    run.py_contract(PG2.GF, "GruneisenBase.__init__", lambda: PG2.strain_and_difference(run), PG2.replay_strain)
